@@ -10,6 +10,7 @@
    What is NOT proved here (validated by the scenario harness only): the ChannelManager-internal
    reconstruction of payments / claims / events from the monitors after a resume or a close. -/
 import LdkModel.Proofs.Restart
+import LdkModel.Proofs.Reconstruct
 namespace Ldk.C10
 open Ldk.Restart
 
@@ -412,5 +413,170 @@ example : failedOnReload ⟨false, some 100, 100⟩ .absent false = false := by 
 example : failedOnReload ⟨false, some 100, 104⟩ .dust false = false := by decide     -- 5 confirmations
 example : failedOnReload ⟨false, some 100, 105⟩ .absent false = true := by decide    -- 6 confirmations
 example : failedOnReload ⟨true, some 100, 110⟩ (.output false) false = false := by decide
+
+/-! ### What the read REBUILDS (Model/Reconstruct.lean): claims replayed, HTLCs failed back, payments, wake-up events
+
+A node world `n : NodeW`: per channel the numeric world above (or none: the manager copy no longer has the channel), the
+entries of the monitor copy's `get_all_current_outbound_htlcs` / `get_onchain_failed_outbound_htlcs`, whether the monitor has
+claimable balances, the HTLC sources of the manager copy's channel; the manager copy's payments and queued forwards.  ALL node
+worlds (the manager copy arbitrarily stale, any monitors), no bounds. -/
+
+/-- `claim replay complete`: every forwarded HTLC for which SOME monitor (of an open or a closed channel) holds the preimage is
+    claimed upstream by the read, provided the inbound edge's monitor is loaded and still has claimable balances (otherwise there is
+    nothing left to claim against). -/
+theorem claim_replay_complete (n : NodeW) (c : ChanW) (hc : c ∈ n.chans) (h : MonHtlc) (hh : h ∈ c.monHtlcs)
+    (ic id : Nat) (hs : h.src = .prev ic id) (hp : h.preimage = true) (i : ChanW) (hi : n.chan? ic = some i)
+    (hb : i.balancesEmpty = false) : ⟨.prev ic id, c.id, c.closed⟩ ∈ claims n := by
+  rw [mem_claims]
+  refine ⟨c, hc, h, hh, ?_, by rw [hs]⟩
+  have : h = ⟨.prev ic id, true⟩ := by cases h; simp_all
+  rw [this, claimDecision_prev]
+  exact ⟨rfl, i, hi, hb⟩
+
+/-- ... and nothing else is claimed: a replayed claim is backed by a preimage in the monitor of its downstream channel, is for a
+    forwarded HTLC (never for an own payment) and its inbound edge's monitor is loaded with claimable balances -/
+theorem claim_replay_sound (n : NodeW) (cl : Claim) (h : cl ∈ claims n) :
+    ∃ c ∈ n.chans, cl.downstream = c.id ∧ cl.downstreamClosed = c.closed ∧ ⟨cl.src, true⟩ ∈ c.monHtlcs ∧
+      ∃ ic id i, cl.src = .prev ic id ∧ n.chan? ic = some i ∧ i.balancesEmpty = false := by
+  obtain ⟨c, hc, m, hm, hd, rfl⟩ := (mem_claims n cl).mp h
+  refine ⟨c, hc, rfl, rfl, ?_⟩
+  cases m with
+  | mk src pre =>
+    cases src with
+    | route p k => rw [claimDecision_route] at hd; cases hd
+    | prev ic id =>
+      obtain ⟨hp, i, hi, hb⟩ := (claimDecision_prev n ic id pre).mp hd
+      subst hp
+      exact ⟨hm, ic, id, i, rfl, hi, hb⟩
+
+example : claims { chans := [⟨1, none, [⟨.prev 0 5, true⟩, ⟨.prev 0 6, false⟩, ⟨.route 9 1, true⟩], [], false, [], []⟩,
+                            ⟨0, some { mgr := ⟨3, 3, [], ⟨9, 9, 9⟩⟩, mon := ⟨3, ⟨9, 9, 9⟩⟩ }, [], [], false, [], []⟩],
+                   queue := [], pays := fun _ => none } = [⟨.prev 0 5, 1, true⟩] := by decide
+
+/-- `no HTLC is both claimed upstream and failed upstream`: a fail-back that takes effect is never for an HTLC whose claim was
+    replayed.  (The raw lists CAN overlap — an HTLC in the stale manager's holding cell that the newer monitor committed and saw
+    claimed, second example — the read queues the fail, applies the claim, and FundedChannel::fail_htlc then refuses: pinned
+    textually by gen_reconstruct.py, `claimWinsOverQueuedFail`.) -/
+theorem never_claimed_and_failed (n : NodeW) (f : Src × FailReason) (hf : f ∈ effectiveFails n) :
+    ∀ cl ∈ claims n, cl.src ≠ f.1 := by
+  unfold effectiveFails at hf
+  rw [List.mem_filter] at hf
+  have h2 : (claims n).any (fun cl => cl.src == f.1) = false := by simpa [claimWinsOverQueuedFail] using hf.2
+  rw [List.any_eq_false] at h2
+  intro cl hcl he
+  exact h2 cl hcl (by simp [he])
+
+/-- a channel closed as OutdatedChannelManager fails back exactly: what its force-shutdown dropped (holding-cell adds, LocalAnnounced
+    HTLCs of a blocked commitment), and the sources of its pending HTLCs that the newer monitor does NOT list; an HTLC the monitor
+    lists is never failed as "missing" -/
+theorem stale_fail_only_if_dropped_or_missing (n : NodeW) (c : ChanW) (s : Src) (r : FailReason) (h : (s, r) ∈ staleFailsOf c) :
+    c.stale = true ∧ r = .channelClosed ∧ (s ∈ c.mgrDropped ∨ (s ∈ c.mgrPending ∧ ∀ m ∈ c.monHtlcs, m.src ≠ s)) :=
+  (mem_staleFailsOf c s r).mp h
+
+theorem stale_missing_htlc_failed (c : ChanW) (s : Src) (hst : c.stale = true) (hp : s ∈ c.mgrPending)
+    (hm : ∀ m ∈ c.monHtlcs, m.src ≠ s) : (s, .channelClosed) ∈ staleFailsOf c :=
+  (mem_staleFailsOf c s _).mpr ⟨hst, rfl, Or.inr ⟨hp, hm⟩⟩
+
+/-- stale channel 1: HTLC (0,5) is pending in the manager copy and gone from the monitor: failed; (0,6) is listed by the monitor: kept -/
+example : fails { chans := [⟨1, some { mgr := ⟨3, 3, [], ⟨9, 9, 9⟩⟩, mon := ⟨5, ⟨9, 9, 9⟩⟩ }, [⟨.prev 0 6, false⟩], [], false, [.prev 0 5, .prev 0 6], []⟩],
+                  queue := [], pays := fun _ => none } = [(.prev 0 5, .channelClosed)] := by decide
+/-- raw overlap: (0,7) sat in the stale manager's holding cell, the newer monitor lists it WITH its preimage: claim wins -/
+example : (let n : NodeW := { chans := [⟨1, some { mgr := ⟨3, 3, [], ⟨9, 9, 9⟩⟩, mon := ⟨5, ⟨9, 9, 9⟩⟩ }, [⟨.prev 0 7, true⟩], [], false, [], [.prev 0 7]⟩,
+                                       ⟨0, none, [], [], false, [], []⟩], queue := [], pays := fun _ => none }
+    (fails n, (claims n).map (·.src), effectiveFails n)) = ([(.prev 0 7, .channelClosed)], [.prev 0 7], []) := by decide
+
+/-- `reconcile soundness` at node level: a queued forward disappears in the read only if the monitor of a channel that is closed at
+    load time lists that very inbound HTLC as forwarded -/
+theorem queued_forward_dropped_only_if_forwarded (n : NodeW) (f : HtlcRef) (hq : f ∈ n.queue) (hd : f ∉ queueAfter n) :
+    ∃ c ∈ n.chans, c.closed = true ∧ ∃ m ∈ c.monHtlcs, m.src = .prev f.chan f.id := by
+  obtain ⟨r, hr, h1, h2⟩ := reconcile_dropped_only_if_forwarded _ _ f hq hd
+  obtain ⟨c, hc, hrc⟩ := List.mem_flatMap.mp hr
+  obtain ⟨hc1, hc2⟩ := List.mem_filter.mp hc
+  obtain ⟨m, hm, hs⟩ := (mem_prevHops c r).mp hrc
+  exact ⟨c, hc1, by simpa [closedBlock] using hc2, m, hm, by rw [hs, h1, h2]⟩
+
+theorem queued_forward_kept_unless_forwarded (n : NodeW) (f : HtlcRef) (hq : f ∈ n.queue)
+    (hn : ∀ c ∈ n.chans, c.closed = true → ∀ m ∈ c.monHtlcs, m.src ≠ .prev f.chan f.id) : f ∈ queueAfter n := by
+  apply reconcile_never_forwarded_kept _ _ f hq
+  intro r hr hc
+  obtain ⟨c, hcm, hrc⟩ := List.mem_flatMap.mp hr
+  obtain ⟨hc1, hc2⟩ := List.mem_filter.mp hcm
+  obtain ⟨m, hm, hs⟩ := (mem_prevHops c r).mp hrc
+  exact hn c hc1 (by simpa [closedBlock] using hc2) m hm (by rw [hs, hc.1, hc.2])
+
+/-- `an outbound payment with a claimed part is never failed`.  PARTIAL: proved when the claimed part is still LISTED, with its
+    preimage, by the monitor of a channel that is closed at load time (then `insert_from_monitor_on_startup` + `claim_htlc` make the
+    entry Fulfilled before any `fail_htlc` of the read runs, whatever the stale manager copy believed and whatever else is failed).
+    What is missing is exactly KF-C10-2: once the monitor has dropped the resolved part (`htlcs_resolved_to_user` / removed from both
+    counterparty commitments) a manager copy written before the claim still lists it, `!found_htlc` fails it and PaymentFailed
+    is emitted (example below).  This is the C10-side half of the coupling that Props/C03 `restart_never_contradicts_partial`
+    assumes (`Good` after restore + insert). -/
+theorem claimed_part_never_failed_partial (n : NodeW) (c : ChanW) (hc : c ∈ n.chans) (hcl : c.closed = true)
+    (P k : Nat) (hm : ⟨.route P k, true⟩ ∈ c.monHtlcs) :
+    PEv.failed P ∉ (paysAfter n).evs ∧ ∃ p, (paysAfter n).get P = some p ∧ p.state = .fulfilled := by
+  have hins : (P, k) ∈ routeInserts n := by
+    unfold routeInserts
+    refine List.mem_flatMap.mpr ⟨c, List.mem_filter.mpr ⟨hc, by simp [insertOnStartup, hcl]⟩, ?_⟩
+    rw [mem_routesOf]; exact List.mem_map.mpr ⟨_, hm, rfl⟩
+  have hclm : (P, k) ∈ routeClaims n := by
+    unfold routeClaims
+    refine List.mem_flatMap.mpr ⟨c, List.mem_filter.mpr ⟨hc, by simp [closedBlock, hcl]⟩, ?_⟩
+    rw [mem_routesOf]; exact List.mem_map.mpr ⟨_, List.mem_filter.mpr ⟨hm, rfl⟩, rfl⟩
+  obtain ⟨e1, p1⟩ := foldl_insertPay (routeInserts n) ⟨n.pays, []⟩ P
+  have hpres := p1 (Or.inr ⟨k, hins⟩)
+  have hnf1 : NoFail ((routeInserts n).foldl insertPay ⟨n.pays, []⟩) P := by unfold NoFail; rw [e1]; simp
+  obtain ⟨a, _, _, d⟩ := foldl_claimPay (routeClaims n) ((routeInserts n).foldl insertPay ⟨n.pays, []⟩) P
+  obtain ⟨hful, hnf⟩ := foldl_failPay (routeFails n) _ P (d hpres ⟨k, hclm⟩) (a hnf1)
+  exact ⟨hnf, hful⟩
+
+/-- a claim the stale manager never saw, a sibling part failed as missing: PaymentSent is generated, PaymentFailed is not -/
+example : (paysAfter { chans := [⟨1, none, [⟨.route 7 1, true⟩], [], false, [], []⟩,
+                                 ⟨2, some { mgr := ⟨3, 3, [], ⟨9, 9, 9⟩⟩, mon := ⟨5, ⟨9, 9, 9⟩⟩ }, [], [], false, [.route 7 2], []⟩],
+                       queue := [], pays := fun i => if i = 7 then some ⟨.retryable, [1, 2], false⟩ else none }).evs = [.sent 7] := by decide
+/-- KF-C10-2 in the model: the payment's only part was claimed and the newer monitor no longer lists it; the manager copy (written
+    before the claim) still does; the channel is closed as stale: `!found_htlc` fails the part and PaymentFailed is emitted -/
+example : (paysAfter { chans := [⟨2, some { mgr := ⟨3, 3, [], ⟨9, 9, 9⟩⟩, mon := ⟨5, ⟨9, 9, 9⟩⟩ }, [], [], false, [.route 7 1], []⟩],
+                       queue := [], pays := fun i => if i = 7 then some ⟨.retryable, [1], false⟩ else none }).evs = [.failed 7] := by decide
+
+/-- wake-up events of a RESUMED channel (MonitorUpdatesComplete / MonitorUpdateRegeneratedOnStartup / AttemptUnblockMonitorUpdates):
+    the read queues none of them iff the manager copy lists nothing in flight AND no blocked update survives
+    `on_startup_drop_completed_blocked_mon_updates_through`.  Every world. -/
+theorem no_wakeup_event_iff (w : World) :
+    bgEvents w = [] ↔ w.mgr.inFlight = [] ∧ blockedAfter w.mgr w.mon.id = [] := bgEvents_eq_nil_iff w
+
+/-- `a channel written while waiting for a monitor update is woken by the read`.  PARTIAL: holds unless the manager copy has blocked
+    updates, nothing in flight, and the monitor copy already contains every blocked update — the KF-C10-1 world, in which the channel
+    keeps MONITOR_UPDATE_IN_PROGRESS with no event queued (example below, also as a run of the history generator). -/
+theorem paused_channel_woken_partial (w : World)
+    (hkf1 : ¬ (w.mgr.inFlight = [] ∧ w.mgr.unblockedId < w.mgr.latestId ∧ w.mgr.latestId ≤ w.mon.id))
+    (hp : w.mgr.paused = true) : bgEvents w ≠ [] := by
+  intro h
+  obtain ⟨h1, h2⟩ := (bgEvents_eq_nil_iff w).mp h
+  have hlt : w.mgr.unblockedId < w.mgr.latestId := by
+    simpa [Mgr.paused, h1] using hp
+  apply hkf1
+  refine ⟨h1, hlt, ?_⟩
+  -- the last blocked id would survive the drop if it were above the monitor's id
+  by_cases hle : w.mgr.latestId ≤ w.mon.id
+  · exact hle
+  · exfalso
+    have hmem : w.mgr.latestId ∈ blockedAfter w.mgr w.mon.id := by
+      unfold blockedAfter
+      rw [List.mem_filter, List.mem_range'_1]
+      refine ⟨by omega, ?_⟩
+      simp [blockedDropped]; omega
+    rw [h2] at hmem; cases hmem
+
+/-- KF-C10-1 in the model: written with update 2 blocked and nothing in flight (update 1 completed and was notified); update 2 is then
+    released and persisted; crash.  The channel is resumed, the blocked update is dropped as completed, and NO background event
+    is queued although the channel was written paused. -/
+example : (let st := reach 0 ⟨9, 9, 9⟩ [.update ⟨1, 0, 0⟩ false, .complete 1, .notify, .update ⟨0, 0, 1⟩ true, .persistManager, .release, .complete 2]
+    (reload (st.world 2), st.disk.paused, bgEvents (st.world 2), blockedAfter st.disk 2)) = (.resumed [], true, [], []) := by decide
+/-- the same manager copy with the monitor one update behind: the blocked update survives and AttemptUnblockMonitorUpdates is queued -/
+example : (let st := reach 0 ⟨9, 9, 9⟩ [.update ⟨1, 0, 0⟩ false, .complete 1, .notify, .update ⟨0, 0, 1⟩ true, .persistManager, .release]
+    bgEvents (st.world 1)) = [.attemptUnblock] := by decide
+/-- all in-flight updates reached the disk: MonitorUpdatesComplete with the highest in-flight id; one missing: it is replayed -/
+example : (bgEvents { mgr := ⟨4, 4, [3, 4], ⟨9, 9, 9⟩⟩, mon := ⟨4, ⟨9, 9, 9⟩⟩ }, bgEvents { mgr := ⟨4, 4, [3, 4], ⟨9, 9, 9⟩⟩, mon := ⟨3, ⟨9, 9, 9⟩⟩ })
+    = ([.updatesComplete 4], [.regenerated 4]) := by decide
 
 end Ldk.C10
